@@ -264,7 +264,7 @@ Next ==
     \/ \E r \in Outcomes : SolverReturns(r)
     \/ \E e \in FaultExcs : SolverRaises(e)
     \/ Except \/ Finally \/ Post \/ LPReturn \/ Return
-    \/ \E e \in StageExcs : StageRaises(e)
+    \/ (~OnlySuccess /\ \E e \in StageExcs : StageRaises(e))
 
 Init == /\ obj = NoObj /\ sense = "minimize" /\ cons = <<>> /\ bver = 0 /\ pver = 0
         /\ cVars = None /\ cSolver = None /\ cLP = None /\ cLin = None
